@@ -502,6 +502,12 @@ pub fn entry_case(rng: &mut Rng, v: u8, ccr: u8) -> Case {
     let target = gen::code_addr(rng, rng.clone().chance(1, 2));
     c.patch32(4 * v as u32, target | ((rng.u8() as u32) << 24));
     gen::maybe_io(rng, &mut c);
+    // the requesting peripheral's status: the 8-bit timer's flags stay as they are when the CPU
+    // accepts the request (software clears them) - acceptance changes no memory outside the frame
+    if rng.chance(1, 3) || matches!(v, 36 | 37 | 39) {
+        c.patches.push((0xffff82, rng.u8() | 0xe0)); // TCSR0 with the three flags set
+        c.patches.push((0xffff80, rng.u8() & 0xf8)); // TCR0: enables/clear source random, no clock
+    }
     c
 }
 
